@@ -9,7 +9,8 @@ structure St where
   nObj : Nat := 3
   nRef : Nat := 5
   cont : List Nat := []      -- reference ids of the elements of a `con::Container<SafePtr<Obj>>`, in order
-  nextC : Nat := 1000
+  nextC : Nat := 1000000
+  quiet : Bool := false      -- large-ring families: accepted operations answer `ok` only, `obs` observes on demand
 
 def parseOp : List String → Option Op
   | ["newobj", o] => do some (.newObj (← o.toNat?))
@@ -37,6 +38,32 @@ def observe (st : St) : String :=
   let cparts := (st.cont.zipIdx).map fun (r, k) => showRef s!"c{k + 1}" r
   " ".intercalate (parts ++ cparts)
 
+/-- observation token of one reference -/
+def tokOf (st : St) (r : Nat) : String :=
+  let p := pointer st.s r
+  if p = 0 then "0" else s!"{p}:{if isLast st.s r then "L" else "N"}"
+
+/-- run-length encoded observation (`obs`): maximal runs `a-b:token` of consecutive constructed reference
+    ids with the same token, so that a ring of thousands of references is one short line -/
+def observeRle (st : St) : String :=
+  let flush (acc : Array String) (cur : Option (Nat × Nat × String)) : Array String :=
+    match cur with
+    | some (a, b, t) => acc.push s!"{a}-{b}:{t}"
+    | none => acc
+  let (acc, cur) := (List.range st.nRef).foldl (init := ((#[] : Array String), (none : Option (Nat × Nat × String))))
+    fun (acc, cur) i =>
+      let r := i + 1
+      if st.s.liveR.get r = 1 then
+        let t := tokOf st r
+        match cur with
+        | some (a, b, t') => if t' = t then (acc, some (a, r, t)) else (flush acc cur, some (r, r, t))
+        | none => (acc, some (r, r, t))
+      else (flush acc cur, none)
+  let cparts := (st.cont.zipIdx).map fun (r, k) => s!"c{k + 1}:{tokOf st r}"
+  " ".intercalate ((flush acc cur).toList ++ cparts)
+
+def reply (st : St) : String := if st.quiet then "ok" else "ok " ++ observe st
+
 /-- run several model operations; `none` if any is illegal -/
 def runOps (s : State) (ops : List Op) : Option State := ops.foldlM (fun s op => Morfuse.SafePtr.step s op) s
 
@@ -46,13 +73,42 @@ def step (st : St) (t : List String) : St × String :=
     match no.toNat?, nr.toNat? with
     | some a, some b => ({ s := init, nObj := a, nRef := b }, "ok")
     | _, _ => (st, "bad-op")
+  -- `universe o r q`: as `universe o r` with quiet mode on from the start (large-ring families)
+  | ["universe", no, nr, "q"] =>
+    match no.toNat?, nr.toNat? with
+    | some a, some b => ({ s := init, nObj := a, nRef := b, quiet := true }, "ok")
+    | _, _ => (st, "bad-op")
+  | ["quiet", b] =>
+    match b.toNat? with
+    | some b => ({ st with quiet := b != 0 }, "ok")
+    | none => (st, "bad-op")
+  | ["obs"] => (st, "ok " ++ observeRle st)
+  -- `mkrefs o a b`: references a..b onto object o, alternately `SafePtr r(o)` and `SafePtr r(previous)`
+  | ["mkrefs", o, a, b] =>
+    match o.toNat?, a.toNat?, b.toNat? with
+    | some o, some a, some b =>
+      if o > st.nObj || a == 0 || b > st.nRef || a > b then (st, "bad-op") else
+      let ops := (List.range (b + 1 - a)).map fun k => if k % 2 == 1 then Op.copyRef (a + k) (a + k - 1) else Op.newRef (a + k) o
+      match runOps st.s ops with
+      | some s' => let st' := { st with s := s' }; (st', reply st')
+      | none => (st, "bad-op")
+    | _, _, _ => (st, "bad-op")
+  -- `delrefs a b`: destroy the references a..b in increasing order
+  | ["delrefs", a, b] =>
+    match a.toNat?, b.toNat? with
+    | some a, some b =>
+      if a == 0 || b > st.nRef || a > b then (st, "bad-op") else
+      match runOps st.s ((List.range (b + 1 - a)).map fun k => Op.delRef (a + k)) with
+      | some s' => let st' := { st with s := s' }; (st', reply st')
+      | none => (st, "bad-op")
+    | _, _ => (st, "bad-op")
   -- move semantics: on this code base a move is a copy; the harness clears the source afterwards
   | ["moveassign", r, q] =>
     match r.toNat?, q.toNat? with
     | some r, some q =>
       if r > st.nRef || q > st.nRef || r == q then (st, "bad-op") else
       match runOps st.s [.assignRef r q, .clear q] with
-      | some s' => let st' := { st with s := s' }; (st', "ok " ++ observe st')
+      | some s' => let st' := { st with s := s' }; (st', reply st')
       | none => (st, "bad-op")
     | _, _ => (st, "bad-op")
   | ["movector", r, q] =>
@@ -60,7 +116,7 @@ def step (st : St) (t : List String) : St × String :=
     | some r, some q =>
       if r > st.nRef || q > st.nRef then (st, "bad-op") else
       match runOps st.s [.copyRef r q, .clear q] with
-      | some s' => let st' := { st with s := s' }; (st', "ok " ++ observe st')
+      | some s' => let st' := { st with s := s' }; (st', reply st')
       | none => (st, "bad-op")
     | _, _ => (st, "bad-op")
   -- a container of weak references (the engine's ConList): AddObject / RemoveObjectAt / growth
@@ -69,7 +125,7 @@ def step (st : St) (t : List String) : St × String :=
     | some o =>
       if o > st.nObj || st.cont.length ≥ 40 then (st, "bad-op") else
       match Morfuse.SafePtr.step st.s (.newRef st.nextC o) with
-      | some s' => let st' := { st with s := s', cont := st.cont ++ [st.nextC], nextC := st.nextC + 1 }; (st', "ok " ++ observe st')
+      | some s' => let st' := { st with s := s', cont := st.cont ++ [st.nextC], nextC := st.nextC + 1 }; (st', reply st')
       | none => (st, "bad-op")
     | none => (st, "bad-op")
   | ["cremove", i] =>
@@ -81,7 +137,7 @@ def step (st : St) (t : List String) : St × String :=
       let shifts := (ids.zip (ids.drop 1)).map (fun (a, b) => Op.assignRef a b)
       let last := st.cont.getLastD 0
       match runOps st.s (shifts ++ [.delRef last]) with
-      | some s' => let st' := { st with s := s', cont := st.cont.dropLast }; (st', "ok " ++ observe st')
+      | some s' => let st' := { st with s := s', cont := st.cont.dropLast }; (st', reply st')
       | none => (st, "bad-op")
     | none => (st, "bad-op")
   | _ =>
@@ -97,7 +153,7 @@ def step (st : St) (t : List String) : St × String :=
       if !inU then (st, "bad-op") else
       match Morfuse.SafePtr.step st.s op with
       | none => (st, "bad-op")
-      | some s' => let st' := { st with s := s' }; (st', "ok " ++ observe st')
+      | some s' => let st' := { st with s := s' }; (st', reply st')
 
 def main : IO Unit := Driver.runLoop step {}
 end Driver.SafePtr
